@@ -387,6 +387,8 @@ def _random_subset(rng, times, allow_empty):
             some = rng.sample(times, rng.randint(1, min(3, len(times))))
             if k == "d":
                 ds = sorted(set(ymd(t // 86400) for t in some) | ({19991231} if rng.random() < 0.3 else set()))
+                if rng.random() < 0.5:
+                    rng.shuffle(ds)            # the order in which dates are typed is irrelevant (seeded change C11g)
                 parts.append("d=" + ",".join(str(d) for d in ds))
             elif k == "tod":
                 hs = sorted(set((t % 86400) // 3600 for t in some) | ({rng.randint(0, 23)} if rng.random() < 0.3
@@ -394,6 +396,8 @@ def _random_subset(rng, times, allow_empty):
                 parts.append("tod=" + ",".join(str(h) for h in hs))
             else:
                 ts = sorted(set(some) | ({times[0] + 1} if rng.random() < 0.3 else set()))
+                if rng.random() < 0.5:
+                    rng.shuffle(ts)
                 parts.append("t=" + ",".join(str(t) for t in ts))
         sub = ";".join(parts)
         kept = [t for t in times if _survives(t, _parse_subset(sub))]
